@@ -115,7 +115,9 @@ def _client_main(sim, rr: RunRecord, ci: int, cspec: dict, shared: dict):
         if cspec.get('delay'):
             sim.sleep(cspec['delay'])
         try:
-            if topo['kind'] == 'attached':
+            if topo['kind'] == 'compile':
+                comp = 'inline'   # bqskit.compile() builds its own
+            elif topo['kind'] == 'attached':
                 comp = Compiler(num_workers=topo['workers'])
             else:
                 comp = Compiler(ip='localhost', port=topo_mod.SERVER_PORT)
@@ -127,7 +129,7 @@ def _client_main(sim, rr: RunRecord, ci: int, cspec: dict, shared: dict):
             out['connected'] = True
             sim.log('CLIENT-CONNECTED', ci)
         out['compiler'] = comp
-        conn0 = comp.conn if comp is not None else None
+        conn0 = getattr(comp, 'conn', None)
         for i, op in enumerate(cspec['script']):
             if comp is None:
                 break
@@ -141,6 +143,30 @@ def _client_main(sim, rr: RunRecord, ci: int, cspec: dict, shared: dict):
                     c, d = comp.compile(Circuit(1), [p], request_data=True,
                                         logging_level=30)
                     val = ('value', d['out'] if 'out' in d else None)
+                elif k == 'bq_compile':
+                    import bqskit
+
+                    from dst.workload import compile_inputs as CI
+                    inp = CI.build_input(op['input'])
+                    model = CI.build_model(op['model'])
+                    o = op['opts']
+                    res = bqskit.compile(
+                        inp, model,
+                        optimization_level=o['optimization_level'],
+                        max_synthesis_size=o.get('max_synthesis_size', 3),
+                        seed=o.get('seed'), with_mapping=True,
+                        num_workers=o['num_workers'])
+                    if op['input']['kind'] == 'list':
+                        specs = op['input']['items']
+                        objs = inp
+                        rs = list(res)
+                    else:
+                        specs, objs, rs = [op['input']], [inp], [res]
+                    val = ('compiled', [
+                        (sp, ob, r[0], tuple(r[1]), tuple(r[2]), model)
+                        for sp, ob, r in zip(specs, objs, rs)]
+                        + [(None, None, r[0], tuple(r[1]), tuple(r[2]),
+                            model) for r in rs[len(specs):]])
                 elif k == 'compile_wf':
                     from dst.oracles import c11
                     from dst.workload import passes as P
@@ -177,7 +203,7 @@ def _client_main(sim, rr: RunRecord, ci: int, cspec: dict, shared: dict):
             except HarnessError:
                 raise
             except Exception as e:
-                if comp.conn is None and conn0 is not None \
+                if getattr(comp, 'conn', 0) is None and conn0 is not None \
                         and not conn0.closed:
                     # the client's error path drops its only reference to
                     # the connection (`self.conn = None`): CPython's
@@ -198,7 +224,7 @@ def _client_main(sim, rr: RunRecord, ci: int, cspec: dict, shared: dict):
         out['script_done'] = True
         sim.log('CLIENT-SCRIPT-DONE', ci)
         sim.barrier('idle')
-        if comp is not None:
+        if comp is not None and comp != 'inline':
             try:
                 comp.close()
                 out['closed'] = True
